@@ -121,7 +121,40 @@ def model_curves(tier, small):
                 idx = int(np.argmax(tip[:n_app] < cpt))
                 out.append((f"model:{mk}:{seed}:{noise}:{tilt}", f,
                             idx if (noise == 0 and tilt == 0) else None))
+    # clean curves with a tilted baseline (no sample of the gradient falls
+    # under the threshold of the zero-crossing estimator: fallback)
+    for j, (tilt, p_) in enumerate([(0.1, 1.5), (0.3, 2.0), (0.05, 1.5)]):
+        n_app = sizes[j % len(sizes)]
+        nb = int(n_app * [0.5, 0.35, 0.6][j])
+        i_ = np.arange(n_app + n_app // 2, dtype=float)
+        up = np.minimum(i_, n_app - 1.0)
+        back = np.maximum(i_ - (n_app - 1.0), 0.0)
+        depth = np.maximum(up - back * 2.0 - nb, 0.0)
+        f = 1e-9 * (depth / max(n_app - nb, 1)) ** p_ \
+            + tilt * 1e-9 * (up - back * 2.0) / n_app
+        out.append((f"tilted-clean:{p_}:{tilt}:{n_app}", f, None))
     return out
+
+
+def gradient_no_crossing(f):
+    """the documented steps 1-5 of the gradient zero-crossing estimator,
+    restated: True when no sample of the averaged gradient lies at or below
+    1% of its maximum (the estimator then has no answer and compute_poc
+    falls back to the middle of the clipped approach data); None when the
+    estimator does not get that far"""
+    from scipy.ndimage import uniform_filter1d
+    f = np.asarray(f, float)
+    app = f[:int(np.argmax(f))]
+    if app.size < 2:
+        return None, app.size
+    fs = max(5, int(app.size * .01))
+    y = uniform_filter1d(app, size=fs)
+    cutoff = y.size - int(np.argmax(y)) + 10
+    grad = np.gradient(y)[:-cutoff]
+    if grad.size <= 50:
+        return None, app.size
+    gn = uniform_filter1d(grad, size=fs)
+    return bool(not np.any(gn <= 0.01 * np.max(gn))), app.size
 
 
 def recorded_curves(tier, step):
@@ -217,6 +250,16 @@ def oracle(run, name, f, truth, meths, degenerate_case=False):
                         f"raised {type(e).__name__}: {e}",
                         payload={"kind": "input", "name": name, "method": m},
                         theorem="C08_fallback")
+        if m == "gradient_zero_crossing":
+            nocross, napp = gradient_no_crossing(f)
+            if nocross and cp != napp // 2:
+                run.failing(SITE, key + "|fallback", f"{cfg}: no sample of "
+                            "the averaged gradient lies under the 1% "
+                            "threshold (the estimator has no answer) but "
+                            f"the index is {cp}, not the middle "
+                            f"{napp // 2} of the {napp} approach samples",
+                            payload={"kind": "input", "name": name,
+                                     "method": m}, theorem="C08_fallback")
         if degenerate_case:
             continue
         # the same values stored as float32 / as a list / in a strided view
